@@ -545,6 +545,7 @@ type EndpointSpec struct {
 	Node    string   `json:"node,omitempty"` // "" = no node name
 	Ready   Tri      `json:"ready,omitempty"`
 	Serving Tri      `json:"serving,omitempty"`
+	Term    Tri      `json:"terminating,omitempty"` // irrelevant for eligibility: a terminating endpoint that still serves counts
 }
 
 // CanServe is EndpointSlice semantics as the documentation states it: ready (nil counts as ready) or serving.
